@@ -285,12 +285,14 @@ theorem controlTranslate_assumption (pub : List Pred) : ∀ (th : Theory) (init 
 theorem rightSide_private_defs (t : ExternalTask) (fuel : Nat) (ΓR : Theory) (hsimp : t.simplify = false)
     (hR : theoryTranslate t [] fuel t.program = .ok ΓR) (J : Interp) (ρ : Asg)
     (hpriv : ∀ a ∈ rightSide t ΓR, a.role = .assumption → sat J a.formula ρ) :
-    completion (tauStar t.program) t.userGuide.inputs = some ΓR ∧
-    ∀ F ∈ ΓR, (∃ q ∈ t.progPrivate, headPredicate F = some q) →
+    ∃ Γ, completion (tauStar t.program) t.userGuide.inputs = some Γ ∧
+    ∀ F ∈ Γ, (∃ q ∈ t.progPrivate, headPredicate F = some q) →
       sat ⟨restrictTo (ext t.program.preds t.userGuide.inputs)
         (renamedInterp (t.specPrivate.filter (· ∈ t.progPrivate)) J.pred), J.fc⟩ F ρ := by
-  -- without simplification the translated theory is the completion itself
-  have hΓ : completion (tauStar t.program) t.userGuide.inputs = some ΓR := by
+  -- without simplification the translated theory is the completion itself, followed by the empty
+  -- definitions of the output predicates the program does not mention
+  have hΓ : ∃ Γ, completion (tauStar t.program) t.userGuide.inputs = some Γ ∧
+      ΓR = Γ ++ (missingOutputs t t.program).map fun q => completeDefinition (atomFromPred q) [] := by
     unfold theoryTranslate at hR
     split at hR
     · cases hR
@@ -300,19 +302,21 @@ theorem rightSide_private_defs (t : ExternalTask) (fuel : Nat) (ΓR : Theory) (h
       simp only [hmap, hsimp, Bool.false_eq_true, if_false] at hR
       cases hc : completion (tauStar t.program) t.userGuide.inputs with
       | none => simp [hc] at hR
-      | some Γ => simp only [hc] at hR; injection hR with hR; rw [hR]
-  refine ⟨hΓ, ?_⟩
+      | some Γ => simp only [hc] at hR; injection hR with hR; exact ⟨Γ, rfl, hR.symm⟩
+  obtain ⟨Γ, hΓ, hΓR⟩ := hΓ
+  refine ⟨Γ, hΓ, ?_⟩
   have hp : globalsPanic t.program = false := (theoryTranslate_ok t fuel t.program ΓR hR).1
   intro F hF ⟨q, hq, hhead⟩
+  have hFR : F ∈ ΓR := by rw [hΓR]; exact List.mem_append.mpr (Or.inl hF)
   have hqpub : q ∉ t.userGuide.publicPreds := by
     unfold ExternalTask.progPrivate at hq
     simp only [List.mem_filter, decide_eq_true_eq] at hq
     exact hq.2
-  obtain ⟨a, ha, hfa, hrole⟩ := controlTranslate_assumption t.userGuide.publicPreds ΓR ([], 0) F hF q hhead hqpub
+  obtain ⟨a, ha, hfa, hrole⟩ := controlTranslate_assumption t.userGuide.publicPreds ΓR ([], 0) F hFR q hhead hqpub
   have := hpriv { a with formula := a.formula.renamePreds (t.specPrivate.filter (· ∈ t.progPrivate)) }
     (List.mem_map.mpr ⟨a, ha, rfl⟩) hrole
   simp only [hfa] at this
-  rw [sat_restrict J.fc _ _ F ρ fun q' hq' => mem_ext.mpr (Or.inl (completion_preds t.program _ hp ΓR hΓ F hF q' hq'))]
+  rw [sat_restrict J.fc _ _ F ρ fun q' hq' => mem_ext.mpr (Or.inl (completion_preds t.program _ hp Γ hΓ F hF q' hq'))]
   exact (sat_renamePreds _ J.pred J.fc F ρ).mp this
 
 end Anthem
